@@ -125,7 +125,8 @@ func (p *Peer) Run() {
 		case atp.MessageTypeWorkStart:
 			var ws atp.WorkStartMessage
 			if err := cbor.Unmarshal(m.RawMessageData, &ws); err != nil {
-				panic(fmt.Sprintf("peer: client sent undecodable work start: %v", err))
+				p.ReadErr = fmt.Errorf("client sent undecodable work start: %w", err)
+				return
 			}
 			runID := m.RunID
 			p.Started = append(p.Started, runID)
